@@ -157,6 +157,12 @@ func streamC46(h *H) {
 	repo, be := NewRepo(0, repository.Options{})
 	nLayouts := h.N(150, 3000)
 	damaged := false
+	// concurrent readers under eviction pressure (large blobs), once per shard
+	c46Pressure(h, "pressure", false)
+	// Opens that return early followed by re-opens of the same node
+	for i := h.N(60, 1500); i > 0; i-- {
+		c46Reopen(h, repo)
+	}
 	for li := 0; li < nLayouts; li++ {
 		l := c46GenLayout(h)
 		kind := "layout"
